@@ -33,6 +33,9 @@ pub struct CallSet {
     pub ncontigs: usize,
     pub extra_info: bool,
     pub recs: Vec<Rec>,
+    /// how contigs are named: 0 chrN, 1 plain numbers, 2 odd contigs symbolic (<CTGn>), 3 scaffold names
+    #[serde(default)]
+    pub contig_style: u8,
 }
 
 /// What `create` is asked to do with a call set.
@@ -59,7 +62,11 @@ pub const K_PLOIDY_UNSEL: u8 = 9;
 pub const K_FIXED_DIFF: u8 = 10;
 /// one whole population uncalled
 pub const K_POP_UNCALLED: u8 = 11;
-pub const N_KINDS: usize = 12;
+/// one population carries an exact ALT count at a table / word-size boundary (170, 171, 255, 256, ...)
+pub const K_EXACT_COUNT: u8 = 12;
+/// a copy of the previous record in which one or two early columns are changed
+pub const K_NEAR_COPY: u8 = 13;
+pub const N_KINDS: usize = 14;
 pub const KIND_NAMES: [&str; N_KINDS] = [
     "complete",
     "selected_missing",
@@ -73,6 +80,8 @@ pub const KIND_NAMES: [&str; N_KINDS] = [
     "ploidy_unselected",
     "fixed_difference",
     "population_uncalled",
+    "exact_count",
+    "near_copy",
 ];
 
 impl Config {
@@ -210,19 +219,27 @@ impl CallSetParams {
             allow_project: true,
             allow_strict: false,
             allow_no_gt: false,
-            kind_w: [6, 3, 2, 2, 1, 2, 2, 2, 0, 0, 1, 1],
+            kind_w: [6, 3, 2, 2, 1, 2, 2, 2, 0, 0, 1, 1, 1, 1],
         }
     }
 }
 
 pub fn gen_samples(rng: &mut Rng, max: usize) -> Vec<String> {
-    let n = rng.range(1, max.max(1));
-    let style = rng.below(3);
+    // now and then a cohort beyond the usual small-data thresholds (64, 128, 255 samples)
+    let n = if max >= 8 && rng.chance(1, 60) {
+        *rng.pick(&[65usize, 128, 129, 256, 300])
+    } else {
+        rng.range(1, max.max(1))
+    };
+    let style = rng.below(5);
     (0..n)
         .map(|i| match style {
             0 => format!("s{i}"),
             1 => format!("sample{i}"),
-            _ => format!("NA{:05}", 100 + i * 7),
+            2 => format!("NA{:05}", 100 + i * 7),
+            // names that are prefixes of one another, and names with punctuation
+            3 => format!("s{}", "1".repeat(i % 4 + 1) + &"0".repeat(i / 4)),
+            _ => format!("ind.{i}-a_{}", i % 3),
         })
         .collect()
 }
@@ -232,11 +249,24 @@ pub fn gen_config(rng: &mut Rng, samples: &[String], p: &CallSetParams) -> Confi
     let sel = if rng.chance(1, 4) {
         None
     } else {
-        let npop = rng.range(1, 4.min(n));
+        // large cohorts get at most two populations: the spectrum has (2n+1)^d cells
+        let npop = if n > 40 {
+            rng.range(1, 2)
+        } else if n >= 9 && n <= 12 && rng.chance(1, 12) {
+            // many small populations (3^9 .. 5^10 cells at most)
+            rng.range(9, n.min(10))
+        } else {
+            rng.range(1, 4.min(n))
+        };
         let labels: Vec<Option<String>> = {
             let mut l: Vec<Option<String>> = (0..npop)
                 .map(|i| Some(format!("{}{}", rng.pick(&["pop", "P", "grp"]), i)))
                 .collect();
+            if rng.chance(1, 12) {
+                // a population label that equals a sample name
+                let i = rng.below(npop as u64) as usize;
+                l[i] = Some(samples[rng.below(n as u64) as usize].clone());
+            }
             if rng.chance(1, 3) {
                 let i = rng.below(npop as u64) as usize;
                 l[i] = None;
@@ -394,6 +424,43 @@ pub fn gen_rec(rng: &mut Rng, kind: u8, samples: &[String], cfg: &Config, contig
                 gts[i] = missing_gt(rng);
             }
         }
+        K_EXACT_COUNT => {
+            // exactly c ALT alleles in one population, c at a boundary that small data never reaches
+            let p = rng.below(npop as u64) as usize;
+            let members: Vec<usize> = sel.iter().copied().filter(|&i| pops[i] == Some(p)).collect();
+            let max = 2 * members.len();
+            let wanted: Vec<usize> = [1usize, 2, 127, 128, 170, 171, 172, 255, 256, 257, 341, 342, 511, 512]
+                .iter()
+                .copied()
+                .filter(|&c| c <= max)
+                .chain([max, max.saturating_sub(1), max / 2])
+                .collect();
+            let c = *rng.pick(&wanted);
+            let mut left = c;
+            for (k, &i) in members.iter().enumerate() {
+                let remaining_slots = 2 * (members.len() - k - 1);
+                let a = if left >= 2 && (left > remaining_slots || rng.chance(1, 2)) {
+                    2
+                } else if left >= 1 && left > remaining_slots {
+                    1
+                } else if left >= 1 && rng.chance(1, 3) {
+                    1
+                } else {
+                    0
+                };
+                let a = a.min(left);
+                left -= a;
+                gts[i] = match a {
+                    2 => "1/1",
+                    1 => if rng.chance(1, 2) { "0/1" } else { "1|0" },
+                    _ => "0/0",
+                }
+                .to_string();
+            }
+        }
+        K_NEAR_COPY => {
+            // filled in by gen_callset from the previous record
+        }
         K_PLOIDY_SEL => {
             let i = *rng.pick(&sel);
             gts[i] = ploidy_gt(rng);
@@ -425,7 +492,7 @@ pub fn gen_callset(rng: &mut Rng, p: &CallSetParams) -> (CallSet, Config) {
     if !p.allow_project {
         cfg.project = None;
     }
-    let ncontigs = rng.range(1, 3);
+    let ncontigs = if rng.chance(1, 10) { rng.range(4, 6) } else { rng.range(1, 3) };
     let nrec = match rng.below(5) {
         0 => rng.range(0, 2.min(p.max_recs)),
         1 => p.max_recs,
@@ -454,11 +521,13 @@ pub fn gen_callset(rng: &mut Rng, p: &CallSetParams) -> (CallSet, Config) {
     }
     let mut recs = vec![];
     let mut contig = 0usize;
-    let mut pos = 0u32;
+    // positions usually start low; now and then close to the 32-bit limits
+    let pos_base: u32 = if p.max_recs <= 500 && rng.chance(1, 25) { *rng.pick(&[65_500u32, 16_777_200, 2_147_400_000]) } else { 0 };
+    let mut pos = pos_base;
     for i in 0..nrec {
         if contig + 1 < ncontigs && rng.below((nrec - i) as u64 + 1) == 0 {
             contig += 1;
-            pos = 0;
+            pos = pos_base;
         }
         // positions increase, except that now and then a record shares the position of its
         // predecessor (split multiallelic sites are written that way)
@@ -467,6 +536,19 @@ pub fn gen_callset(rng: &mut Rng, p: &CallSetParams) -> (CallSet, Config) {
         }
         let kind = rng.weighted(&w) as u8;
         let mut rec = gen_rec(rng, kind, &samples, &cfg, contig, pos);
+        if kind == K_NEAR_COPY {
+            if let Some(prev) = recs.last() {
+                let prev: &Rec = prev;
+                if !prev.no_gt && prev.gts.iter().all(|g| g.split(|c| c == '/' || c == '|').count() == 2) {
+                    rec.gts = prev.gts.clone();
+                    rec.nalt = prev.nalt;
+                    for _ in 0..rng.range(1, 2) {
+                        let col = rng.below(((samples.len() + 1) / 2) as u64) as usize;
+                        rec.gts[col] = (*rng.pick(&["0/1", "1/1", "0/0", "1|0"])).to_string();
+                    }
+                }
+            }
+        }
         if p.allow_no_gt && rng.chance(1, 14) {
             rec.no_gt = true;
             rec.kind = K_ALL_MISSING;
@@ -479,6 +561,7 @@ pub fn gen_callset(rng: &mut Rng, p: &CallSetParams) -> (CallSet, Config) {
             ncontigs,
             extra_info: rng.chance(1, 3),
             recs,
+            contig_style: *rng.pick(&[0u8, 0, 0, 0, 0, 0, 1, 1, 2, 2, 3, 3]),
         },
         cfg,
     )
@@ -487,12 +570,30 @@ pub fn gen_callset(rng: &mut Rng, p: &CallSetParams) -> (CallSet, Config) {
 const BASES: [&str; 4] = ["A", "C", "G", "T"];
 
 impl CallSet {
+    /// the contig's name as the tool reports it
+    pub fn contig_name(&self, c: usize) -> String {
+        match self.contig_style {
+            1 => format!("{}", c + 1),
+            2 if c % 2 == 0 => format!("CTG{}", c + 7),
+            3 => format!("scaffold_{}.1", c + 12),
+            _ => format!("chr{}", c + 1),
+        }
+    }
+
+    /// what the CHROM column holds (symbolic contigs are written in angle brackets)
+    pub fn contig_column(&self, c: usize) -> String {
+        match self.contig_style {
+            2 if c % 2 == 0 => format!("<{}>", self.contig_name(c)),
+            _ => self.contig_name(c),
+        }
+    }
+
     pub fn header_text(&self) -> String {
         let mut s = String::new();
         s.push_str("##fileformat=VCFv4.3\n");
         s.push_str("##FILTER=<ID=PASS,Description=\"All filters passed\">\n");
         for c in 0..self.ncontigs {
-            s.push_str(&format!("##contig=<ID=chr{},length=100000>\n", c + 1));
+            s.push_str(&format!("##contig=<ID={},length=2147483647>\n", self.contig_name(c)));
         }
         if self.extra_info {
             s.push_str("##INFO=<ID=DP,Number=1,Type=Integer,Description=\"Total depth\">\n");
@@ -517,8 +618,8 @@ impl CallSet {
             ".".to_string()
         };
         let mut s = format!(
-            "chr{}\t{}\t.\t{}\t{}\t.\t.\t{}\t{}",
-            r.contig + 1,
+            "{}\t{}\t.\t{}\t{}\t.\t.\t{}\t{}",
+            self.contig_column(r.contig),
             r.pos,
             refb,
             alts.join(","),
@@ -573,6 +674,15 @@ impl CallSet {
 
 /// Transcodes VCF text to uncompressed BCF with noodles' own writer (trusted base).
 pub fn vcf_to_bcf(vcf: &[u8]) -> io::Result<Vec<u8>> {
+    // the BCF writer itself is not total (e.g. it cannot encode symbolic contigs): such call sets
+    // simply have no BCF encoding
+    match crate::l1::guarded(|| vcf_to_bcf_inner(vcf)) {
+        Ok(r) => r,
+        Err(p) => Err(io::Error::new(io::ErrorKind::Other, format!("BCF writer panicked: {p}"))),
+    }
+}
+
+fn vcf_to_bcf_inner(vcf: &[u8]) -> io::Result<Vec<u8>> {
     use noodles_bcf as bcf;
     use noodles_vcf as vcf_;
     let mut r = vcf_::Reader::new(vcf);
@@ -631,6 +741,10 @@ pub struct Layout {
     pub blocks: Vec<usize>,
     pub eof_marker: bool,
     pub level: u32,
+    /// BCF minor version byte written into the magic "BCF\x02\x0?" (0 = leave what the writer
+    /// produced, i.e. 2); BCF 2.1 files are read by the same decoder
+    #[serde(default)]
+    pub bcf_minor: u8,
 }
 
 /// Frames `data` into BGZF; returns bytes and the offsets at which each block ends.
@@ -741,6 +855,7 @@ pub fn gen_layout(rng: &mut Rng, data: &[u8], line_oriented: bool, max_blocks: u
         blocks,
         eof_marker: !rng.chance(1, 4),
         level: *rng.pick(&[0u32, 1, 6, 6, 9]),
+        bcf_minor: if rng.chance(1, 6) { 1 } else { 0 },
     }
 }
 
@@ -781,11 +896,17 @@ pub fn encode(vcf: &[u8], container: Container, layout: &Layout) -> io::Result<(
         }
         Container::VcfGz => Ok(bgzf_frame(vcf, layout)),
         Container::Bcf => {
-            let raw = vcf_to_bcf(vcf)?;
+            let mut raw = vcf_to_bcf(vcf)?;
+            if layout.bcf_minor != 0 && raw.len() > 5 {
+                raw[4] = layout.bcf_minor;
+            }
             Ok(bgzf_frame(&raw, layout))
         }
         Container::BcfRaw => {
-            let raw = vcf_to_bcf(vcf)?;
+            let mut raw = vcf_to_bcf(vcf)?;
+            if layout.bcf_minor != 0 && raw.len() > 5 {
+                raw[4] = layout.bcf_minor;
+            }
             Ok((raw, vec![3, 5, 9]))
         }
     }
@@ -863,11 +984,21 @@ pub fn gen_value(rng: &mut Rng, family: u64) -> f64 {
                 7 => -1e300 * rng.f64(),
                 8 => f64::from_bits(rng.next_u64()),
                 9 => -(rng.below(1000) as f64) - rng.f64(),
-                10 => f64::MAX,
+                10 => *rng.pick(&[f64::MAX, 9007199254740992.0, 9007199254740993.0, 1e15, 1e16, 999999999999999.9, 16777216.0, 16777217.0, 4294967296.0]),
                 _ => f64::MIN_POSITIVE,
             }
         }
         4 => (rng.below(2_000_000) as f64 - 1_000_000.0) / 64.0, // dyadic, exact
+        5 => {
+            // site counts of realistic size: 10^4 .. 10^10, around 2^24 and 2^31
+            match rng.below(5) {
+                0 => (16_777_200 + rng.below(40)) as f64,
+                1 => (2_147_483_600u64 + rng.below(100)) as f64,
+                2 => rng.below(100_000_000) as f64,
+                3 => (10_000_000 + rng.below(90_000_000)) as f64,
+                _ => rng.below(10_000_000_000) as f64,
+            }
+        }
         _ => rng.below(10) as f64,
     }
 }
@@ -875,14 +1006,14 @@ pub fn gen_value(rng: &mut Rng, family: u64) -> f64 {
 pub fn gen_spec(rng: &mut Rng, max_axes: usize, max_len: usize, max_elems: usize, finite_only: bool) -> Spec {
     let shape = gen_shape(rng, max_axes, max_len, max_elems);
     let n: usize = shape.iter().product();
-    let mut fam = rng.below(6);
+    let mut fam = rng.below(7);
     if finite_only && fam == 3 {
         fam = 1;
     }
     let mixed = rng.chance(1, 4) && !finite_only;
     let vals: Vec<f64> = (0..n)
         .map(|_| {
-            let f = if mixed { rng.below(6) } else { fam };
+            let f = if mixed { rng.below(7) } else { fam };
             gen_value(rng, f)
         })
         .collect();
